@@ -805,6 +805,8 @@ void GlobalGraph::setRoot(Graph::NodeId newRoot)
 {
   nodeMustExist_(newRoot, "new root");
   root_ = newRoot;
+  // validity of trees and DAGs is tested from the root
+  this->topologyHasChanged_();
 }
 
 Graph::NodeId GlobalGraph::getRoot() const
